@@ -287,12 +287,29 @@ impl<'ast> Visit<'ast> for AttrCollector {
     }
 }
 
-fn strip_attrs_item(text: &str) -> Result<(String, usize), Fail> {
+fn strip_attrs_item(text: &str, pubfields: bool) -> Result<(String, usize), Fail> {
     let item: syn::Item = syn::parse_str(text).map_err(|e| Fail(format!("X5 parse: {e}")))?;
     let mut c = AttrCollector { spans: vec![] };
     c.visit_item(&item);
     let n = c.spans.len();
-    let edits = c.spans.into_iter().map(|(s, e)| (s, e, String::new())).collect();
+    let mut edits: Vec<Edit> = c.spans.into_iter().map(|(s, e)| (s, e, String::new())).collect();
+    if pubfields {
+        // X5: private fields are made `pub` (visibility only) so that contracts of pub fns may name them
+        if let syn::Item::Struct(st) = &item {
+            if matches!(st.vis, syn::Visibility::Inherited) {
+                let (s, _) = rng(st.struct_token.span());
+                edits.push((s, s, "pub ".to_string()));
+            }
+            for f in st.fields.iter() {
+                if matches!(f.vis, syn::Visibility::Inherited) {
+                    if let Some(id) = &f.ident {
+                        let (s, _) = rng(id.span());
+                        edits.push((s, s, "pub ".to_string()));
+                    }
+                }
+            }
+        }
+    }
     Ok((apply_edits(text, edits), n))
 }
 
@@ -878,7 +895,7 @@ fn do_extract(repo: &str, ex: &Extract, probes: bool, probe_ctr: &mut usize) -> 
     let mut rewrites: BTreeMap<&str, usize> = BTreeMap::new();
 
     if kind == "type" {
-        let (t, n) = strip_attrs_item(&text)?;
+        let (t, n) = strip_attrs_item(&text, ex.kv.contains_key("pubfields"))?;
         rewrites.insert("X5", n);
         let mut out = String::new();
         if let Some(a) = ex.kv.get("attrs") {
